@@ -201,7 +201,19 @@ def check(ctx, case):
         return False
 
     try:
-        out = scorer.predict(torch.from_numpy(pafs.copy()), torch.nested.nested_tensor(peaks_l), torch.nested.nested_tensor(vals_l), torch.nested.nested_tensor(ch_l))
+        # same values, three memory layouts: contiguous channels-last; a permuted view of a channels-first tensor (what the bottom-up layer
+        # passes: pafs.permute(0, 2, 3, 1)); a spatial window of a larger tensor
+        lay = abs(int(case["i"])) % 3
+        if lay == 0:
+            paf_t = torch.from_numpy(pafs.copy())
+        elif lay == 1:
+            paf_t = torch.from_numpy(np.ascontiguousarray(pafs.transpose(0, 3, 1, 2))).permute(0, 2, 3, 1)
+        else:
+            big = torch.zeros((pafs.shape[0], pafs.shape[1] + 3, pafs.shape[2] + 2, pafs.shape[3]), dtype=torch.float32)
+            big[:, 1:1 + pafs.shape[1], 2:2 + pafs.shape[2]] = torch.from_numpy(pafs)
+            paf_t = big[:, 1:1 + pafs.shape[1], 2:2 + pafs.shape[2]]
+        ctx.count(f"paf_layout_{lay}")
+        out = scorer.predict(paf_t, torch.nested.nested_tensor(peaks_l), torch.nested.nested_tensor(vals_l), torch.nested.nested_tensor(ch_l))
     except Exception as e:
         if isinstance(e, ValueError) and "infeasible" in str(e) and coincident_pair():
             ctx.violation(KEY_COINCIDENT, f"PAFScorer.predict raised {type(e).__name__}: {e} (a source and a destination peak share a pixel -> NaN line score)", small)
